@@ -217,6 +217,21 @@ theorem invT_close (s : Server) (sid : Nat) (h : InvT s) : InvT (close s sid) :=
   obtain ⟨x, hx⟩ := this
   exact ⟨⟨x, hx⟩, hp.2⟩
 
+theorem invT_deliver (s : Server) (k : Kind) (i : Nat) (h : InvT s) : InvT (deliver s k i).1 := by
+  unfold deliver
+  split
+  · exact h
+  · refine h.frame rfl (fun p hp => ⟨hp, h.1 p hp⟩) (fun k' => ?_)
+    simp only [setK]
+    split <;> exact ⟨rfl, rfl, rfl⟩
+
+theorem invT_listenRefused (s : Server) (sid id : Nat) (kinds : List Kind) (uris : List Nat) (n : Nat)
+    (h : InvT s) : InvT (listenRefused s sid id kinds uris n) := by
+  unfold listenRefused
+  split
+  · exact invT_listenEnd _ sid id (invT_listen s sid id kinds (uris.take n) h)
+  · exact h
+
 theorem invT_step (s : Server) (l : Label) (h : InvT s) : InvT (step s l).1 := by
   cases l with
   | change f e => exact invT_change s f e h
@@ -224,6 +239,9 @@ theorem invT_step (s : Server) (l : Label) (h : InvT s) : InvT (step s l).1 := b
   | fireTracked k => exact invT_fireTracked s k h
   | fireOrphan k i => exact invT_fireOrphan s k i h
   | cbrun k => exact invT_cbrun s k h
+  | deliver k i => exact invT_deliver s k i h
+  | listenRefused sid id kinds uris n => exact invT_listenRefused s sid id kinds uris n h
+  | updatedNamed u v => exact h
   | bind sid => exact invT_bind s sid h
   | hello sid m => exact invT_hello s sid m h
   | listen sid id kinds uris => exact invT_listen s sid id kinds uris h
